@@ -790,7 +790,7 @@ def history_run(run, pid):
 def c08(run):
     run.assumptions += ["'exactly one question' and 'answers only in responses' are message-level clauses a caller can break on purpose (delete the question, clear QR): acceptance of the object's bytes is judged with those two clauses lifted (Structural), and whenever they hold the real parser must accept and report the same view; maybe_compressed is compared as an implication (false => no pointer)",
                         "the including-OPT reader exposes the OPT pseudo-record to set_raw_name, set_rr_ttl and delete; these are part of the alphabet"]
-    book_models(run)
+    book_models(run, parts=("book", "object"))
     scen, events, facts, mine = history_run(run, "C08")
     run.cov["distinct_nontrivial"] = sum(v for k, v in facts.items() if k.startswith("op:cursor:") and k[10:] in ("set_raw_name", "delete", "uncompress")) + facts.get("op:insert", 0) + facts.get("op:rename", 0) + facts.get("op:insert_q", 0)
     run.cov["rule"] = "recorded steps; non-trivial = the step can change the size or layout of the packet (set_raw_name, delete, in-place decompression, insert, rename)"
@@ -801,7 +801,7 @@ def c09(run):
 
     run.assumptions += ["the expected effect of every operation is written on the decoded message (spec/History.tla EffectWhy / SubsWhy): names byte-identical for every operation except rename, where compression intervenes and names are compared case-insensitively",
                         "operations are also required to succeed when no stated reason for failure applies (valid name, well-formed text, room left, policy-conforming packet)"]
-    book_models(run, negs=("iterunc",))
+    book_models(run, negs=("iterunc",), parts=("book", "mutate", "objimpl"))
     scen, events, facts, mine = history_run(run, "C09")
     run.cov["distinct_nontrivial"] = facts.get("res:ok", 0)
     run.cov["rule"] = "recorded steps; non-trivial = the operation succeeded (its effect on the decoded message was compared with the specified one)"
@@ -810,7 +810,7 @@ def c09(run):
 @check("C10")
 def c10(run):
     run.assumptions += ["failure-inducing arguments are part of the alphabet: second question, malformed and out-of-range record text, names with a 64-byte label / a forbidden byte / truncated, operations on a deleted record's cursor, renames that overflow 255 bytes, insertions that cross 8192 bytes from every starting size including packets larger than 8192, operations that must re-parse a packet whose question was deleted or whose QR bit was cleared"]
-    book_models(run, negs=("insertorder", "optname"))
+    book_models(run, negs=("insertorder", "optname"), parts=("book", "object"))
     scen, events, facts, mine = history_run(run, "C10")
     failed = {k[7:]: v for k, v in facts.items() if k.startswith("failed:")}
     run.cov["distinct_nontrivial"] = facts.get("res:err", 0)
@@ -823,7 +823,7 @@ def c10(run):
 def object_impl_conformance(run, events):
     """byte-level: every recorded cursor sub-step and insertion against the object-level transcription
     (spec/ObjectImpl.tla: decompress-first, cursor translation, byte moves, offset shifts).  Notes only."""
-    sel = [l for l in events if '"op":"cursor"' in l[:4000] or '"op":"insert' in l[:4000] or '"op":"recompute"' in l[:4000]]
+    sel = [l for l in events if '"op":"cursor"' in l[:4000] or '"op":"insert' in l[:4000] or '"op":"recompute"' in l[:4000] or '"op":"rename"' in l[:4000]]
     if quick(run):
         sel = sel[vlib.seed() % 3::3]
     if not sel:
@@ -840,25 +840,40 @@ def object_impl_conformance(run, events):
         run.notes.append("note (not a violation): on %d recorded steps the object's bytes / bookkeeping / cursor differ from the TLA+ transcription ObjectImpl: %s" % (len(diff), "; ".join("%s x%d" % kv for kv in kinds.most_common(5))))
 
 
-def book_models(run, negs=("edns", "cache", "recompute", "optttl")):
-    """M: the size-level bookkeeping design (spec/Book.tla), repaired design: every initial packet
-    with <= 1 (thorough: 2) records per section, two names, per-record compression flag, OPT anywhere,
-    and every behaviour of <= 4 (thorough: 3) operations; the defect switches are negative controls."""
-    if quick(run):
-        run.model("MC_Book", "MC_Book.cfg")
-    else:
-        run.model("MC_Book", "MC_Book_thorough.cfg", timeout=3600)
-        negs = ("edns", "cache", "iterunc", "delopt", "skip", "recompute", "optttl", "optname", "insertorder")
-    for n in negs:
-        run.negative_control("MC_Book", "MC_Book_neg_%s.cfg" % n)
-    # byte-level transcription of resize_rr / set_raw_name / delete / insert_rr: bytes, view and cursor after every
-    # operation at every record position of the Gen_S1 packets (pointer-free layout)
-    run.model("MC_MutateImpl", "MC_MutateImpl.cfg" if quick(run) else "MC_MutateImpl_thorough.cfg", timeout=7200)
-    run.negative_control("MC_MutateImpl", "MC_MutateImpl_neg.cfg")
-    # object level: byte-exact decompression, decompress-first with cursor translation, on the compressed layouts
-    run.model("MC_ObjectImpl", "MC_ObjectImpl.cfg" if quick(run) else "MC_ObjectImpl_thorough.cfg", timeout=7200)
-    run.negative_control("MC_ObjectImpl", "MC_ObjectImpl_neg_rdlength.cfg")
-    run.negative_control("MC_ObjectImpl", "MC_ObjectImpl_neg_cursor.cfg")
+def book_models(run, negs=("edns", "cache", "recompute", "optttl"), parts=("book", "mutate", "objimpl", "object")):
+    """M: design models of the mutable object.
+    book    : the size-level bookkeeping design (spec/Book.tla), repaired design: every initial packet with <= 1
+              (thorough: 2) records per section, two names, per-record compression flag, OPT anywhere, every
+              behaviour of <= 4 (thorough: 3) operations; defect switches are negative controls
+    mutate  : byte-level transcription of resize_rr / set_raw_name / delete / insert_rr at every record position of
+              the Gen_S1 packets (pointer-free layout)
+    objimpl : byte-exact decompression, decompress-first with cursor translation, on the compressed layouts
+    object  : the object as a byte-level state machine: every behaviour of <= 3 (thorough: 4) operations (open /
+              advance / set name / delete / decompress / TTL through a cursor, insert, recompute, rename) from
+              Gen_S1 messages in all three layouts; invariants Acceptable, Coherent, FlagSound, CursorSound (C08)
+              and Effect (C09 / C10)
+    The quick tier of each property runs the parts that state that property; the thorough tier runs all."""
+    if not quick(run):
+        parts = ("book", "mutate", "objimpl", "object")
+    if "book" in parts:
+        if quick(run):
+            run.model("MC_Book", "MC_Book.cfg")
+        else:
+            run.model("MC_Book", "MC_Book_thorough.cfg", timeout=3600)
+            negs = ("edns", "cache", "iterunc", "delopt", "skip", "recompute", "optttl", "optname", "insertorder")
+        for n in negs:
+            run.negative_control("MC_Book", "MC_Book_neg_%s.cfg" % n)
+    if "mutate" in parts:
+        run.model("MC_MutateImpl", "MC_MutateImpl.cfg" if quick(run) else "MC_MutateImpl_thorough.cfg", timeout=7200)
+        run.negative_control("MC_MutateImpl", "MC_MutateImpl_neg.cfg")
+    if "objimpl" in parts:
+        run.model("MC_ObjectImpl", "MC_ObjectImpl.cfg" if quick(run) else "MC_ObjectImpl_thorough.cfg", timeout=7200)
+        run.negative_control("MC_ObjectImpl", "MC_ObjectImpl_neg_rdlength.cfg")
+        run.negative_control("MC_ObjectImpl", "MC_ObjectImpl_neg_cursor.cfg")
+    if "object" in parts:
+        run.model("MC_Object", "MC_Object.cfg" if quick(run) else "MC_Object_thorough.cfg", timeout=7200)
+        for neg in ("cursor", "rdlength", "edns", "optkept", "optinsert", "renameflag"):
+            run.negative_control("MC_Object", "MC_Object_neg_%s.cfg" % neg)
 
 
 @check("HIST")
@@ -915,13 +930,21 @@ def c11(run):
 def c13(run):
     import synthgen
     run.assumptions += ["valid texts are rendered by the scenario generator from structured records (all nine types; boundary values: TTL 0 .. 2^32-1, 62-byte labels in every position, 253-byte names as owner and inside NS/CNAME/PTR/MX/SOA data, preference 0/65535, TXT of 1/255/256/510/511/3825 bytes and every byte value through decimal escapes, digests of 1/20/32/48 bytes, IPv6 forms) in four whitespace / keyword-case styles; the structured record travels with the text and TLC computes the expected wire form",
-                        "texts whose classification the statement leaves open (all-numeric owners, leading-zero octets, bytes >= 128 outside TXT escapes) are only generated in the arbitrary-string family, whose oracle is: no panic; anything returned is a well-formed record; inserting it leaves an accepted packet"]
+                        "every text -- generated, damaged or arbitrary -- is also classified by the grammar written in TLA+ (spec/TextGrammar.tla: valid with the record it denotes / excluded / not judged) directly from its bytes; the two descriptions must agree wherever both speak (otherwise tool error)",
+                        "texts whose classification the statement leaves open (all-numeric host names, '-' / '_' at unusual places in a label, 63-byte labels and 254..255-byte names, empty / very long / non-ASCII quoted text, vertical whitespace inside SOA parentheses, IPv4-in-IPv6 notation) are judged only by: no panic; anything returned is a well-formed record; inserting it leaves an accepted packet"]
     run.model("MC_Synth", "MC_Synth.cfg")
     scen = dedupe(synthgen.scenarios(vlib.seed(), run.tier))
     obs, path = vlib.drive(scen, run.wd, "synth")
     if len(obs) != len(scen):
         raise ToolError("driver returned %d observations for %d scenarios" % (len(obs), len(scen)))
-    bad, out = vlib.validate(path, "Trace_Synth", "Trace_Synth_C13.cfg", run.wd, len(obs), {"VIOLATION-C13"})
+    bad, out = vlib.validate(path, "Trace_Synth", "Trace_Synth_C13.cfg", run.wd, len(obs), {"VIOLATION-C13", "SPEC-DISAGREE"})
+    dis = {ln: w for ln, (t, w) in bad.items() if t == "SPEC-DISAGREE"}
+    if dis:
+        ln = sorted(dis)[0]
+        raise ToolError("the two descriptions of the record-text grammar disagree on %d texts, e.g. %r: %s" % (len(dis), bytes(json.loads(scen[ln - 1])["text"])[:120], dis[ln]))
+    cls = collections.Counter(txt for _, ln, txt in vlib.event_prints(out, "FACT"))
+    run.cov["by_generator_label_and_grammar_class"] = {k.replace("|", "->"): v for k, v in cls.items()}
+    decided = sum(v for k, v in cls.items() if k.split("|")[1] in ("ok", "err"))
     kinds = collections.Counter()
     for sc, o in zip(scen, obs):
         exp = sc[sc.index('"expect":"') + 10:].split('"')[0]
@@ -931,8 +954,8 @@ def c13(run):
     run.cov["evaluations"] += len(obs)
     run.cov["traces_validated_against_impl"] += len(obs) - len(bad)
     run.cov["by_expectation_and_result"] = dict(kinds)
-    run.cov["distinct_nontrivial"] = sum(v for k, v in kinds.items() if k.startswith("ok") or k.startswith("err"))
-    run.cov["rule"] = "distinct texts; non-trivial = the statement fixes the outcome (grammar-derived valid text, or systematically damaged text)"
+    run.cov["distinct_nontrivial"] = max(decided, sum(v for k, v in kinds.items() if k.startswith("ok") or k.startswith("err")))
+    run.cov["rule"] = "distinct texts; non-trivial = the statement fixes the outcome: the TLA+ grammar (spec/TextGrammar.tla) classifies the bytes as valid (and computes the record they denote) or as excluded; the generator's own label, where it has one, must agree"
     run.cov["samples"] = [vlib.shorten(bytes(json.loads(s)["text"]).decode("latin1"), 200) for s in vlib.sample(scen, 4)]
     for ln, (t, why) in sorted(bad.items()):
         sc = json.loads(scen[ln - 1])
